@@ -207,19 +207,33 @@ class FakeAmqp:
                                           exchange, mandatory), fn)
         return spec.Basic.Ack() if ok else spec.Basic.Nack()
 
+    def _tags_upto(self, delivery_tag: int, multiple: bool) -> list:
+        """AMQP: with `multiple` the method settles EVERY outstanding delivery of the channel up to and including the tag"""
+        if not multiple:
+            return [delivery_tag]
+        return [u["tag"] for u in self.unacked if u["tag"] <= delivery_tag]
+
     async def basic_ack(self, delivery_tag: int, multiple: bool = False, wait: bool = True) -> None:
-        await self._step("ack", (delivery_tag, multiple), lambda now: 1 if self._take_tag(delivery_tag) is not None else 0)
+        def fn(now):
+            n = 0
+            for t in self._tags_upto(delivery_tag, multiple):
+                n += 1 if self._take_tag(t) is not None else 0
+            return 1 if n else 0
+        await self._step("ack", (delivery_tag, multiple), fn)
 
     async def basic_nack(self, delivery_tag: int, multiple: bool = False, requeue: bool = True, wait: bool = True) -> None:
         def fn(now):
-            u = self._take_tag(delivery_tag)
-            if u is None:
-                return 0
-            if requeue:
-                self._enq_front(dict(u["msg"], redel=True), self.queues[u["q"]])
-            else:
-                self._dead_letter(u["q"], u["msg"])
-            return 1
+            n = 0
+            for t in reversed(self._tags_upto(delivery_tag, multiple)):
+                u = self._take_tag(t)
+                if u is None:
+                    continue
+                n += 1
+                if requeue:
+                    self._enq_front(dict(u["msg"], redel=True), self.queues[u["q"]])
+                else:
+                    self._dead_letter(u["q"], u["msg"])
+            return 1 if n else 0
         await self._step("nack", (delivery_tag, multiple, requeue), fn)
 
     async def basic_reject(self, delivery_tag: int, *, requeue: bool = True, wait: bool = True) -> None:
